@@ -103,7 +103,7 @@ def build_file(unit, vspec, verus=True):
             out.append(open(os.path.join(unit.dir, m.group(1))).read())
             i += 1
             continue
-        m = re.match(r"\s*//@ extract (\S+) ((?:struct |enum |trait |const |impl (?:\S+ for )?)?\S+)(.*)", l)
+        m = re.match(r"\s*//@ extract (\S+) (<[^>]+>::\S+|(?:struct |enum |trait |const |impl (?:\S+ for )?)?\S+)(.*)", l)
         if m:
             opts = dict(re.findall(r"(\w+)=(\S+)", m.group(3)))
             spec_lines = []
